@@ -13,6 +13,15 @@
 // (+ measured scheduling lateness), replies == 0 only when accounted for by
 // the server's shed/drop counters plus the kernel's UDP loss counters; then
 // Server.Quiesced(), limiter slots and goroutines after the load.
+//
+// Besides ordinary clients the plan carries hostile traffic: junk datagrams,
+// clients that walk away, and poison bursts (poison.go, planPoison) — tight
+// bursts in which ordinary queries for cached names are interleaved with
+// well-formed queries forged from sources the kernel refuses to send a reply
+// to (source port 0, unroutable source address; raw socket), so that the
+// server's transmit bursts (sendmmsg) mix answerable and refused datagrams.
+// Poison is unanswerable traffic: it is never judged itself, every ordinary
+// query beside it is.
 package main
 
 import (
@@ -43,7 +52,7 @@ func main() {
 	r.Finish(rule)
 }
 
-func rounds(r *vlib.Run) int { return r.N(1, 36) } // thorough: 36 × 13 scripts ≈ 12 min
+func rounds(r *vlib.Run) int { return r.N(1, 36) } // thorough: 36 × 15 scripts ≈ 15 min
 
 func groups(r *vlib.Run) int { return r.N(4, 4) }
 
